@@ -95,8 +95,9 @@ class Hist:
         self.L, self.C = L, C
         self.ops = [f"new {L} {C}"]
         self.xl = (0, 0)
-        self.saved = []       # (kind, xl)
+        self.saved = []       # (kind, xl, cursor set?)
         self.cursor = False
+        self.free = rng.random() < 0.001  # no avoidance of the known finding in this history
 
     def emit(self, s):
         self.ops.append(s)
@@ -131,6 +132,25 @@ class Hist:
         if r < 0.90:
             return (self.line(), self.col(), rng.randint(0, 2), rng.randint(0, 3))
         return (self.line(), self.col(), rng.choice([-1, 0, 1, 50]), rng.choice([-2, 0, 1, 50]))
+
+    def restore(self):
+        """`restore`; unless this history is one of the few that may trigger the known finding
+        C03/vc_pos_set_not_saved, first bring the cursor's set/unset state back to what it was at the matching
+        `save` (bin/check looks at only a few failing histories per run: a finding that fires in every tenth
+        history would hide everything else; the finding itself is probed by corpus/C03/ on every run)."""
+        if self.saved:
+            k, xl, cur = self.saved[-1]
+            if k == "save" and cur != self.cursor and not self.free:
+                if cur:
+                    self.emit(f"goto {self.line()} {self.col()}")
+                else:
+                    self.emit("ungoto")
+                self.cursor = cur
+                stats["(cursor state re-established before restore)"] += 1
+        self.emit("restore")
+        if self.saved:
+            k, xl, cur = self.saved.pop()
+            if k == "save": self.xl = xl
 
     def step(self):
         r = rng.random()
@@ -185,10 +205,7 @@ class Hist:
             k = rng.choice(["save", "save", "savepen"])
             self.emit(k); self.saved.append((k, self.xl, self.cursor))
         elif r < 0.98:
-            self.emit("restore")
-            if self.saved:
-                k, xl, cur = self.saved.pop()
-                if k == "save": self.xl = xl
+            self.restore()
         elif r < 0.985:
             self.emit("reset"); self.xl = (0, 0); self.saved = []; self.cursor = False
         elif r < 0.993:
@@ -204,6 +221,7 @@ def random_history():
     n = rng.randint(8, 36)
     # a prologue that makes the auxiliary state non-neutral in a good share of the histories
     if rng.random() < 0.3:
+        if rng.random() < 0.4: h.emit(f"goto {h.line()} {h.col()}"); h.cursor = True
         h.emit("save"); h.saved.append(("save", h.xl, h.cursor))
         if rng.random() < 0.5: h.emit("mask %d %d %d %d" % h.rect())
     for _ in range(n):
@@ -213,7 +231,7 @@ def random_history():
     # unwind: restore everything and look again through the public queries at (nearly) neutral state
     if rng.random() < 0.6:
         for _ in range(len(h.saved) + (1 if rng.random() < 0.2 else 0)):
-            h.emit("restore")
+            h.restore()
         h.emit("getcells")
     return h.ops
 
@@ -262,7 +280,7 @@ if a.tier == "exhaustive":
     lines, n = exhaustive()
     info = {"histories": n, "exhaustive_bound": "all programs of <= 3 operations over a 12-operation alphabet on a 2x5 buffer x 4 auxiliary prologues"}
 else:
-    N = 1400 if a.tier == "quick" else 9000
+    N = 2500 if a.tier == "quick" else 20000
     for _ in range(N):
         lines.extend(random_history())
     info = {"histories": N}
